@@ -43,6 +43,13 @@ def gen_case(rng: random.Random, tier: str) -> dict:
             outs = gen.program_outputs(nd["graph"])
             if outs:
                 nd["graph"]["select"] = rng.sample(outs, rng.randint(1, len(outs)))
+    if rng.random() < 0.4:
+        # outputs that are legal but falsy - in particular None: a selected output whose VALUE is None was produced, it is not missing
+        lists = set(g.get("lists", []))
+        for nd, _d, _p in iter_nodes(g):
+            if nd["kind"] == "fn" and nd.get("outs") and not nd.get("beh") and not nd.get("gen") and not (set(nd["outs"]) & lists) and rng.random() < 0.25:
+                nd["beh"] = "const"
+                nd["beh_value"] = rng.choice([None, None, 0, False, "", []])
     interrupt = None
     fn_top = [nd for nd in g["nodes"] if nd["kind"] == "fn" and nd["params"] and nd["outs"] and not nd.get("emit") and not nd.get("wait_for")]
     if fn_top and rng.random() < 0.2:
